@@ -829,6 +829,133 @@ func main() {
 		}
 		bwg.Wait()
 	}
+	// ---- part D: a command issued while a long transaction owns the database. The transaction reads,
+	// deletes and re-creates the keys the command works on, so a command that looks at the database before
+	// it has the lock (or keeps using what it found after releasing it) applies its effect to an object
+	// that is gone. Whatever the interleaving, the two replies and the final content must be those of one
+	// of the two sequential orders, which are obtained by running them one after the other.
+	if failures == 0 {
+		type outcome struct{ tx, x, final string }
+		observe := func(cl *redisemu.VerifClient) string {
+			do := func(a ...string) string { r, _ := cl.Dispatch(toArgv(a)); return string(r) }
+			var parts []string
+			for _, k := range []string{"h", "s", "n", "l", "st", "l2", "st2", "s2"} {
+				t := do("TYPE", k)
+				v := ""
+				switch {
+				case strings.Contains(t, "hash"):
+					e := strings.Split(do("HGETALL", k), "\r\n")
+					sort.Strings(e)
+					v = strings.Join(e, ",")
+				case strings.Contains(t, "list"):
+					v = do("LRANGE", k, "0", "-1")
+				case strings.Contains(t, "set"):
+					e := strings.Split(do("SMEMBERS", k), "\r\n")
+					sort.Strings(e)
+					v = strings.Join(e, ",")
+				case strings.Contains(t, "string"):
+					v = do("GET", k)
+				}
+				parts = append(parts, k+"="+strings.TrimSpace(t)+":"+v)
+			}
+			return strings.Join(parts, ";")
+		}
+		setup := func(cl *redisemu.VerifClient) {
+			for _, c := range [][]string{{"HSET", "h", "f", "1", "g", "x"}, {"SET", "s", "abc"}, {"SET", "n", "5"}, {"RPUSH", "l", "a", "b"}, {"SADD", "st", "a", "b"}} {
+				cl.Dispatch(toArgv(c))
+			}
+		}
+		runTx := func(cl *redisemu.VerifClient, pings int) string {
+			do := func(a ...string) string { r, _ := cl.Dispatch(toArgv(a)); return string(r) }
+			do("MULTI")
+			do("HGET", "h", "f")
+			do("GET", "s")
+			do("GET", "n")
+			do("LRANGE", "l", "0", "-1")
+			do("SCARD", "st")
+			for i := 0; i < pings; i++ {
+				do("PING")
+			}
+			do("DEL", "h", "s", "n", "l", "st")
+			do("HSET", "h", "f", "10")
+			do("SET", "s", "xyz")
+			do("SET", "n", "50")
+			do("RPUSH", "l", "q")
+			do("SADD", "st", "z")
+			r := do("EXEC")
+			// the replies of the reads at the head and of the writes at the tail; the PONGs in between are dropped
+			parts := strings.Split(r, "+PONG\r\n")
+			head := parts[0]
+			if i := strings.Index(head, "\r\n"); i >= 0 && strings.HasPrefix(head, "*") {
+				head = head[i+2:] // the element count depends on the number of PINGs
+			}
+			return head + "|" + parts[len(parts)-1]
+		}
+		singles := [][]string{{"HINCRBYFLOAT", "h", "f", "1.5"}, {"HINCRBY", "h", "f", "2"}, {"HSET", "h", "f", "7"}, {"HDEL", "h", "f"},
+			{"HSETNX", "h", "n", "1"}, {"APPEND", "s", "x"}, {"INCR", "n"}, {"INCRBYFLOAT", "n", "0.5"}, {"DECRBY", "n", "3"}, {"LPUSH", "l", "c"},
+			{"RPOP", "l"}, {"LSET", "l", "0", "w"}, {"LINSERT", "l", "BEFORE", "a", "i"}, {"LREM", "l", "0", "a"}, {"LTRIM", "l", "1", "-1"},
+			{"SADD", "st", "m"}, {"SREM", "st", "a"}, {"SETRANGE", "s", "1", "Z"}, {"GETSET", "s", "q"}, {"GETDEL", "s"},
+			{"LMOVE", "l", "l2", "LEFT", "RIGHT"}, {"SMOVE", "st", "st2", "a"}, {"RENAME", "s", "s2"}, {"COPY", "s", "s2", "REPLACE"},
+			{"SETBIT", "s", "9", "1"}, {"BITFIELD", "s", "INCRBY", "u8", "0", "1"}, {"EXPIRE", "h", "100"}, {"PERSIST", "s"}, {"SETNX", "n", "9"},
+			{"MSETNX", "s", "1", "zz", "2"}, {"SINTERSTORE", "st2", "st", "st"}, {"BITOP", "NOT", "s2", "s"}, {"GETEX", "s", "PERSIST"},
+			{"HINCRBYFLOAT", "newh", "f", "2.5"}, {"TTL", "h"}, {"GETBIT", "s", "1"}, {"BITCOUNT", "s"}, {"STRLEN", "s"}, {"TYPE", "h"}}
+		for _, x := range singles {
+			if failures > 0 {
+				break
+			}
+			seq := func(txFirst bool) outcome {
+				vs := redisemu.VerifNewStore("")
+				a, b := vs.NewClient(), vs.NewClient()
+				defer a.Close()
+				defer b.Close()
+				setup(a)
+				var o outcome
+				if txFirst {
+					o.tx = runTx(a, 3)
+					r, _ := b.Dispatch(toArgv(x))
+					o.x = string(r)
+				} else {
+					r, _ := b.Dispatch(toArgv(x))
+					o.x = string(r)
+					o.tx = runTx(a, 3)
+				}
+				o.final = observe(a)
+				return o
+			}
+			o1, o2 := seq(true), seq(false)
+			for rep := 0; rep < 3 && failures == 0; rep++ {
+				vs := redisemu.VerifNewStore("")
+				a, b := vs.NewClient(), vs.NewClient()
+				setup(a)
+				var got outcome
+				var wg sync.WaitGroup
+				wg.Add(1)
+				// queue the transaction first (queueing takes no lock), then let EXEC and the command race
+				do := func(cl *redisemu.VerifClient, c ...string) string { r, _ := cl.Dispatch(toArgv(c)); return string(r) }
+				started := make(chan struct{})
+				go func() {
+					defer wg.Done()
+					close(started)
+					got.tx = runTx(a, 30000)
+				}()
+				<-started
+				time.Sleep(time.Duration(8+rep*4) * time.Millisecond) // the EXEC with its 30000 PINGs is under way
+				got.x = do(b, x...)
+				wg.Wait()
+				got.final = observe(a)
+				stats["pair_checks"]++
+				if got != o1 && got != o2 {
+					fail("pair", rep, []string{"setup: HSET h f 1 g x; SET s abc; SET n 5; RPUSH l a b; SADD st a b",
+						"A: MULTI; HGET h f; GET s; GET n; LRANGE l 0 -1; SCARD st; PING x 30000; DEL h s n l st; HSET h f 10; SET s xyz; SET n 50; RPUSH l q; SADD st z; EXEC",
+						"B (while A's EXEC runs): " + strings.Join(x, " ")},
+						fmt.Sprintf("observed (EXEC %q, command %q, final %q) is neither 'transaction first' (%q, %q, %q) nor 'command first' (%q, %q, %q)",
+							got.tx, got.x, got.final, o1.tx, o1.x, o1.final, o2.tx, o2.x, o2.final))
+				}
+				a.Close()
+				b.Close()
+			}
+		}
+	}
 	res := map[string]any{"stats": stats, "samples": samples, "failures": failures, "wall_s": time.Since(start).Seconds()}
 	if *out != "" {
 		data, _ := json.MarshalIndent(res, "", " ")
